@@ -158,7 +158,7 @@ def spec_text(case):
         ("   [consts %s]" % case["consts"] if case["consts"] else "") + "   [%s]" % case["style"]
 
 
-def run_discrete(case, monitor, modular=True, only=None, read_names=False):
+def run_discrete(case, monitor, modular=True, only=None, read_names=False, pre=None):
     """monitor: offd | ond | past.  Returns outcome; payload = (main result list, {name: values})."""
     data, n, vs = case["data"], case["n"], case["vars"]
     names = [nm for nm, _ in case["defs"]]
@@ -179,6 +179,11 @@ def run_discrete(case, monitor, modular=True, only=None, read_names=False):
         spec = build(case, "ond", modular, only)
         if monitor == "past":
             spec.pastify()
+        if pre:
+            # the object has a history: another trace, then reset()
+            for i in range(len(next(iter(pre.values())))):
+                spec.update(i, [(v, pre[v][i]) for v in vs])
+            spec.reset()
         res, got = [], {}
         for i in range(n):
             res.append(spec.update(i, [(v, data[v][i]) for v in vs]))
